@@ -175,6 +175,7 @@ func instrIndex(in ssa.Instruction) int {
 type pathQuery struct {
 	Fn        *ssa.Function
 	Starts    []ssa.Instruction // search begins just after each
+	StartBlocks []*ssa.BasicBlock // search begins at the first instruction of each
 	AtEntry   bool
 	Barrier   func(ssa.Instruction) bool
 	Target    func(ssa.Instruction) bool
@@ -210,6 +211,9 @@ func (q pathQuery) search() []ssa.Instruction {
 	}
 	for _, s := range q.Starts {
 		push(pos{s.Block(), instrIndex(s) + 1}, -1)
+	}
+	for _, b := range q.StartBlocks {
+		push(pos{b, 0}, -1)
 	}
 	for len(queue) > 0 {
 		ni := queue[0]
